@@ -127,7 +127,10 @@ def run(ctx):
                         a_.hcount = max(0, {"C": 4, "N": 3}[a_.element] - sigma - (1 if v_ in P else 0))
                     a_.isotope = {"C": 13, "N": 15}[a_.element]
         for k in range(3 if kek else 2):
-            s, order, _, _ = spell(m, rng)
+            uc = rng.random() < 0.15
+            s, order, _, _ = spell(m, rng, upper_colon=uc)
+            if uc:
+                ctx.count("aromatic_spelled_upper_case_with_colon_bonds")
             st, mi, mo, x = roundtrip(ctx, sf, s, table, False, "aromatic")
             ctx.case(("q12", s), st == "ok")
             if st != "ok":
@@ -142,7 +145,8 @@ def run(ctx):
                     dbl[kx[0]] = dbl.get(kx[0], 0) + 1
                     dbl[kx[1]] = dbl.get(kx[1], 0) + 1
             Pw = {inv[g_] for g_ in P}
-            bad = [a_.idx for a_ in mi.atoms if a_.aromatic and dbl.get(a_.idx, 0) != (1 if a_.idx in Pw else 0)]
+            in_system = set(x_ for kx, o in mi.bonds.items() if o == 1.5 for x_ in kx)
+            bad = [a_.idx for a_ in mi.atoms if a_.idx in in_system and dbl.get(a_.idx, 0) != (1 if a_.idx in Pw else 0)]
             if bad and not unknown:
                 ctx.finding("aromatic-assignment-inconsistent", {"smiles": s, "selfies": x, "table": table},
                             "atoms %r do not carry exactly the double bond they need inside the former aromatic system" % bad[:6])
